@@ -87,6 +87,18 @@ Refetch(bd, t, p, q) ==
     [c \in Ids |-> IF (\E x \in Pend(p) \cup Pend(q) : x[1] = c) /\ ~ManifestMustBeRejected(mE[c], t, cmin)
                    THEN Max(bd[c], Min(mE[c], t + cmax)) ELSE bd[c]]
 
+\* [C03] what THIS arrival wrote expires no later than THIS manifest (expiry E, capped at arrival + max): an accepted manifest
+\* (re)writes the key-share record of its chunk, an accepted replica also the chunk record.  A later-expiring manifest that
+\* arrived earlier does not excuse it: the copy now held came with this one.  Judged under the virtual clock only (tol <= 20 ms);
+\* the key-share record is left out while a fetch for the chunk is pending (its dispatch re-ingests the manifest it carries).
+CachedExpiry(p, c, dflt) == IF \E x \in Cache(p) : x[1] = c THEN (CHOOSE x \in Cache(p) : x[1] = c)[2] ELSE dflt
+ArrivalWrites(e, c, E, accepted, isReplica) ==
+    IF ~accepted \/ tol > 20 \/ c \notin Ids THEN {}
+    ELSE LET lim == Min(E, e.t + cmax) + tol
+             pending == \E x \in Pend(pproj) \cup Pend(e.proj) : x[1] = c
+         IN (IF isReplica /\ \E x \in Chunks(e.proj) : x[1] = c /\ x[2] > lim THEN {"C03.replica-outlives-its-manifest"} ELSE {})
+            \cup (IF ~pending /\ \E x \in Shard(e.proj) : x[1] = c /\ x[2] > lim THEN {"C03.arrival-outlives-its-manifest/key-shares"} ELSE {})
+
 Step(e) ==
   CASE e.op = "reset" ->
         LET bad == IF ConfigWindowOk(e) THEN {} ELSE {"C02.config-window"} IN
@@ -138,6 +150,7 @@ Step(e) ==
             bd2 == Refetch(bd1, e.t, pproj, e.proj)
             bad == (IF tooOld /\ tol = 0 /\ ~SameProj(e.proj, pproj) THEN {"C03.expired-manifest-changed-state/" \o e.via} ELSE {})
                    \cup DerivedClauses(e.proj, bd2)
+                   \cup ArrivalWrites(e, c, E, ~tooOld /\ Has(e, "ok") /\ e.ok, FALSE)
         IN Common(e, bad, rec, held, bd2, owed, notified, slack)
     [] e.op = "replica" ->
         LET c == e.c  E == e.exp
@@ -150,6 +163,7 @@ Step(e) ==
                    \cup (IF e.ok /\ e.via = "recv" /\ e.cls # e.b THEN {"C11.replica-roundtrip-mismatch"} ELSE {})
                    \cup (IF ~e.ok /\ e.corrupt # 0 /\ ~SameProj(e.proj, pproj) THEN {"C11.tampered-replica-changed-state"} ELSE {})
                    \cup DerivedClauses(e.proj, bd2)
+                   \cup ArrivalWrites(e, c, IF e.via = "recv" THEN E ELSE CachedExpiry(pproj, c, E), ~tooOld /\ e.ok, TRUE)
         IN Common(e, bad, r2, IF e.ok THEN held \cup {c} ELSE held, bd2, owed, notified, sl2)
     [] e.op = "tick" ->
         LET tc == e.t
